@@ -66,6 +66,16 @@ add("C14", "exploration",
     "Edge graph equals bond graph on the alphabet; reference ref_genparams.expected_exclusions.",
     "§2 C14")
 
-for _p in ["C03", "C04", "C05", "C06", "C07", "C08", "C09", "C12", "C13",
+add("C13", "exploration",
+    "metamorphic bounded-exhaustive enumeration of all relabellings / orders / call histories",
+    "For every base input all n! node-key relabellings, all n! insertion orders, all 2^|E| edge orientations, edge insertion "
+    "orders, all block-definition orders, all orders of non-conflicting links, both file splits, and all sequences of <=3 "
+    "(thorough 4) gen_params calls over 6 representative inputs in one process are executed and the canonical output compared "
+    "with the untransformed run / with a fresh interpreter. No reference model is needed, so any order or history dependence in "
+    "dict/graph iteration or in-place force-field mutation shows as a concrete pair of runs.",
+    "Resids fixed under relabelling; first header line of files ignored; known finding F13 (non-edge vetoes depend on link order) tolerated by predicate.",
+    "§2 C13")
+
+for _p in ["C03", "C04", "C05", "C06", "C07", "C08", "C09", "C12",
            "C15", "C17", "C18", "C20"]:
     NOT_YET[_p] = "check under construction in this session (bounded exhaustive exploration applies; see DESIGN.md)"
